@@ -32,21 +32,23 @@ pub struct Config {
     pub pbase: u64,
     pub policy: Policy,
     pub variant: char, // 'A' nesting, 'B' edges
+    pub alias: bool,   // recursive mapper built with new_unchecked from an alias of the level-4 table (not its recursive address)
 }
 impl Config {
     pub fn name(&self) -> String {
-        format!("{:?}/pbase={:#x}/{:?}/{}", self.imp, self.pbase, self.policy, self.variant)
+        format!("{:?}{}/pbase={:#x}/{:?}/{}", self.imp, if self.alias { "-via-alias" } else { "" }, self.pbase, self.policy, self.variant)
     }
     pub fn parse(s: &str) -> Config {
         // e.g. offset:0x0:asc:A   mapped:0x40000000:lifo:A   rec126:0x0:aligned:B
         let t: Vec<&str> = s.split(':').collect();
-        let imp = if t[0] == "offset" { Impl::Offset } else if t[0] == "mapped" { Impl::Mapped } else { Impl::Recursive(t[0][3..].parse().unwrap()) };
+        let alias = t[0].starts_with("reca");
+        let imp = if t[0] == "offset" { Impl::Offset } else if t[0] == "mapped" { Impl::Mapped } else { Impl::Recursive(t[0][if alias { 4 } else { 3 }..].parse().unwrap()) };
         let pbase = u64::from_str_radix(t[1].trim_start_matches("0x"), 16).unwrap();
         let policy = match t[2] { "asc" => Policy::Ascending, "lifo" => Policy::Lifo, _ => Policy::AlignedFirst };
-        Config { imp, pbase, policy, variant: t[3].chars().next().unwrap() }
+        Config { imp, pbase, policy, variant: t[3].chars().next().unwrap(), alias }
     }
     pub fn to_arg(&self) -> String {
-        let i = match self.imp { Impl::Offset => "offset".to_string(), Impl::Mapped => "mapped".to_string(), Impl::Recursive(r) => format!("rec{}", r) };
+        let i = match self.imp { Impl::Offset => "offset".to_string(), Impl::Mapped => "mapped".to_string(), Impl::Recursive(r) => format!("rec{}{}", if self.alias { "a" } else { "" }, r) };
         let p = match self.policy { Policy::Ascending => "asc", Policy::Lifo => "lifo", Policy::AlignedFirst => "aligned" };
         format!("{}:{:#x}:{}:{}", i, self.pbase, p, self.variant)
     }
@@ -101,8 +103,8 @@ pub fn alphabet(cfg: &Config) -> Alpha {
     // indices 0..LEAF_IN_DOMAIN / 0..PARENT_IN_DOMAIN are the quantified domain; the last element of each list lacks PRESENT
     // (outside the quantified domain; explored as a deviation with a reduced, representation-level oracle)
     // index 5: PAT bit of huge pages (bit 12, overlaps the address field of 4 KiB-granular addresses: O2) — outside the domain too
-    let leaf_flags = vec![P | W, P, P | W | U | 0x100 | 0x200 | (1 << 63), P | HUGE /* = PAT bit on a 4 KiB leaf; only used for 4 KiB */, W, P | W | 0x1000];
-    let parent_flags = vec![P | W, P, P | W | U, W];
+    let leaf_flags = vec![P | W, P, ALL_LEAF, P | HUGE /* = PAT bit on a 4 KiB leaf; only used for 4 KiB */, W, P | W | 0x1000];
+    let parent_flags = vec![P | W, P, P | W | U, P | W | 0x200 | 0x400 | (0x7ffu64 << 52) | (1 << 63), W];
     // identity map: lower-half alphabet pages whose address is also a valid physical address
     let mut ident = Vec::new();
     for sz in [2u8, 1, 0] {
@@ -186,9 +188,11 @@ pub enum Act {
 /// allocator failure schedules: 0 never, 1/2/3 fail the k-th request of the call, 4 all
 pub const SCHEDS: u8 = 5;
 pub const LEAF_IN_DOMAIN: u8 = 4;
-pub const PARENT_IN_DOMAIN: u8 = 3;
+pub const PARENT_IN_DOMAIN: u8 = 4;
 pub const LEAF_OOD: u8 = 4;
-pub const PARENT_OOD: u8 = 3;
+pub const PARENT_OOD: u8 = 4;
+/// every PageTableFlags bit except HUGE_PAGE (bit 7) — includes ACCESSED/DIRTY, cache bits, GLOBAL, all available bits, NO_EXECUTE
+pub const ALL_LEAF: u64 = P | W | U | 0x8 | 0x10 | 0x20 | 0x40 | 0x100 | 0xe00 | (0x7ffu64 << 52) | (1 << 63);
 pub const LEAF_PAT_HUGE: u8 = 5;
 
 pub fn actions(al: &Alpha) -> Vec<(Act, u8)> {
@@ -222,6 +226,7 @@ pub fn actions(al: &Alpha) -> Vec<(Act, u8)> {
         v.push((Act::Update { page: pi, flags: 2 }, 1));
         for level in [4u8, 3, 2] {
             v.push((Act::SetP { level, page: pi, flags: 1 }, 1));
+            v.push((Act::SetP { level, page: pi, flags: 3 }, 1));
         }
         // outside the quantified domain: a huge page mapped with its PAT bit (bit 12)
         if sz > 0 {
@@ -537,6 +542,7 @@ macro_rules! on_mapper {
                 $body
             }
             $crate::mp::Impl::Recursive(r) => {
+                let __l4: &mut x86_64::structures::paging::PageTable = if $cfg.alias { unsafe { &mut *($crate::simphys::L4_ALIAS as *mut x86_64::structures::paging::PageTable) } } else { __l4 };
                 let mut $m = unsafe { x86_64::structures::paging::mapper::RecursivePageTable::new_unchecked(__l4, x86_64::structures::paging::PageTableIndex::new(r)) };
                 $body
             }
